@@ -16,7 +16,8 @@ import tapecommon as tc
 
 LEVEL = "proof"
 NS = "Adept.RecBuf."
-REQUIRED = ["C09_check_reserves", "C09_lhs_safe", "C09_disciplined_safe", "C09_no_fault_any_capacity",
+REQUIRED = ["C09_every_recording_call_reserved", "C09_site_diag_vector", "C09_site_element_temporary", "C09_site_matmul",
+            "C09_check_reserves", "C09_lhs_safe", "C09_disciplined_safe", "C09_no_fault_any_capacity",
             "C09_counts_capacity_independent", "C09_preallocate_harmless", "C09_site_scalar", "C09_site_copy",
             "C09_site_dependence", "C09_site_array_assign", "C09_site_array_from_scalar", "C09_site_conditional"]
 
@@ -167,6 +168,21 @@ def run(ctx, replay):
                 ops1.append(o)
                 if ac.is_stmt(o) or o == "nr":
                     ops1.append("ev")
+            # recording sites the C03 generator does not emit (drv_arrayad_s5.cpp): diag_vector of an active expression
+            # (F-69), the Active temporaries of Array/FixedArray::get_rvalue (F-70), each at a random fill level
+            rg = ctx.rng
+            d0, d1 = rg.randint(2, 5), rg.randint(2, 5)
+            vals = lambda n: " ".join(str(rg.randint(-3, 3)) for _ in range(n))
+            ops1 += ["av 9001 %d %d : %s" % (d0, d1, vals(d0 * d1)),
+                     "%s 9002 %d %d : %s" % (rg.choice(["av", "pv"]), d0, d1, vals(d0 * d1)),
+                     "as 9003 2", "f4 9004 : 1 2 3 4", "ev"]
+            extra = ["dvx 9010 9001 9002 %d" % rg.randint(-(d0 - 1), d1 - 1),
+                     "dvx 9011 9001 9002 %d" % rg.randint(-(d0 - 1), d1 - 1),
+                     "elg 9003 9001 9001 : %d %d : %d %d" % (rg.randrange(d0), rg.randrange(d1), rg.randrange(d0), rg.randrange(d1)),
+                     "fxg 9003 9004 %d %d" % (rg.randrange(4), rg.randrange(4))]
+            rg.shuffle(extra)
+            for e in extra:
+                ops1 += ["pad %d" % rg.randint(1, 6), "ev", e, "ev"]
             acases.append(ops1)
         atext = "".join("\n".join(c) + "\n" for c in acases)
         aouts = [vcheck.run_impl(exe, [], atext) for exe in aexes]
@@ -187,7 +203,7 @@ def run(ctx, replay):
                 for oi, (o, l) in enumerate(zip(ops, il)):
                     if o != "ev":
                         last_op = o
-                        if ac.is_stmt(o):
+                        if ac.is_stmt(o) or o.split()[0] in ac.EXTRA_KINDS:
                             # what was recorded (tape part of the statement line) must not depend on the capacity
                             tpart = l.split(" | T ", 1)[1].split(" | A ", 1)[0] if " | T " in l else l[:200]
                             stmt_lines.setdefault((pi, oi), {})[cap] = tpart
